@@ -9,6 +9,8 @@ mod address;
 mod sendall;
 mod sets;
 mod fixedtx;
+mod codec;
+mod parse;
 
 fn main() {
     let argv: Vec<String> = std::env::args().collect();
@@ -28,6 +30,8 @@ fn main() {
         "sendall" => sendall::main(&a),
         "sets" => sets::main(&a),
         "fixedtx" => fixedtx::main(&a),
+        "codec" => codec::main(&a),
+        "parse" => parse::main(&a),
         d => {
             eprintln!("unknown driver {}", d);
             std::process::exit(2);
